@@ -14,7 +14,7 @@ CHECKS = {
             "trusted: successor model (body due / Expect / refusal / framing table / 3xx), exchange driver"),
     "C10": ("exhaustive enumeration of the close-condition product (145152 cells, second hop followed), of truncated 3xx heads (360) and of repeated interim responses (432) + proptest decorated exchanges; verdict formula oracle; thorough: coverage-guided (libFuzzer) search over the same choice tapes, same decoder and oracle",
             "complete over request version x Connection x method x Expect outcome x response version x status x framing x response Connection; Redirect and Cleanup compared",
-            "trusted: five-condition formula as stated; reason text classified by keyword"),
+            "trusted: five-condition formula as stated; the reason text of each condition is learnt from five single-condition exchanges of the implementation itself"),
     "C11": ("proptest generated handshakes x every look-prefix length; per-window oracle + ground truth of the remaining exchange; thorough: coverage-guided (libFuzzer) search over the same choice tapes, same decoder and oracle",
             "for every prefix length of every generated interim/final head a fresh flow is driven through Await100 and on to Cleanup in the branch the model prescribes",
             "trusted: head model, exchange ground truth"),
@@ -28,7 +28,7 @@ CHECKS = {
             "complete for chains up to 2 hops over 24 origins x 4 Location forms x 2 policies; random for longer chains",
             "trusted: structural target model (form semantics), strict request-head parser"),
     "C14": ("proptest redirect chains with grammar-generated Locations; differential against an RFC 3986 section 5 reference resolver; RFC 5.4 tables and error-class tables enumerated; thorough: coverage-guided (libFuzzer) search over the same choice tapes, same decoder and oracle",
-            "the reference resolver is written from the RFC pseudo code and validated on the RFC's own examples; chains make hop k+1 resolve against hop k",
+            "the reference resolver is written from the RFC pseudo code and validated on the RFC's own examples; chains make hop k+1 resolve against hop k; 15 % of the original requests carry an explicit Host, which must not travel to another host",
             "trusted: model/rfc3986.rs; domain restricted to where RFC 3986 and WHATWG URL agree (DESIGN section 7)"),
     "C16": ("proptest redirected flows (depth 0..3) with caller-added headers aimed at the suppressed names; strict-parse round trip; thorough: coverage-guided (libFuzzer) search over the same choice tapes, same decoder and oracle",
             "same machinery as C02 with the generator aimed at the combination redirect -> add -> serialise",
@@ -42,11 +42,11 @@ CHECKS = {
     "C05": ("proptest generated heads x every prefix length; exact-parse oracle from the generator's structure; known finding by computed signature; thorough: coverage-guided (libFuzzer) search over the same choice tapes, same decoder and oracle",
             "every strict prefix of every generated head (<= 600 bytes) is offered to the parser, a Call and a Flow; the full head must parse back to exactly the generated status/version/fields",
             "trusted: harness head builder; HeaderMap order is compared per name"),
-    "C06": ("exhaustive enumeration of the framing decision table (3.0M cells) + proptest decorated heads + proptest request paths through the exchange driver; table oracle from RFC 9112 6.3 as worded in the property; thorough: coverage-guided (libFuzzer) search over the same choice tapes, same decoder and oracle",
+    "C06": ("exhaustive enumeration of the framing decision table (3.6M cells, incl. coding lists spread over two Transfer-Encoding lines) + proptest decorated heads + proptest request paths through the exchange driver; table oracle from RFC 9112 6.3 as worded in the property; thorough: coverage-guided (libFuzzer) search over the same choice tapes, same decoder and oracle",
             "the whole (method, status, version, Content-Length class, Transfer-Encoding class) table is enumerated on both APIs; cells the statement leaves open are explicit don't-cares; the same cells are reached after every Expect outcome, with HTTP/1.0 requests and with a body sent despite the method",
             "trusted: 25-line framing table; Call body mode identified by a probe read"),
     "C07": ("bounded-exhaustive enumeration (all cut sets of short codings; all single/double structural cuts of the small-scope grammar) + proptest random codings/schedules; enumerated chunk sizes beyond 32/63 bits; round-trip against the encoder's ground truth; thorough: coverage-guided (libFuzzer) search over the same choice tapes, same decoder and oracle",
-            "small-scope hypothesis: every arrival composition of every coding up to 16 (19) bytes and every pair of structural cuts of the stated grammar, under 27 buffer/boundary-stop modes; random beyond",
+            "small-scope hypothesis: every arrival composition of every coding up to 16 (19) bytes and every pair of structural cuts of the stated grammar, under 27 buffer/boundary-stop modes; random beyond; the body state reached on five routes (plain, late 100, 100 seen, refused Expect, HTTP/1.0 request)",
             "trusted: harness chunk encoder (ground truth: payload, chunk map, boundaries)"),
     "C08": ("proptest read histories against a reference counter + exhaustive small-scope schedules; five routes to the head, redirect bodies, close conditions; thorough: coverage-guided (libFuzzer) search over the same choice tapes, same decoder and oracle",
             "(arrival, buffer) histories with windows reaching into a following response; every read is decided by min(window, space, remaining)",
@@ -61,10 +61,10 @@ CHECKS = {
             "every strict prefix of every generated head, for all three public parsers, field counts aimed at N and N+1",
             "trusted: harness head builder"),
     "C18": ("exhaustive enumeration of n + proptest random large n; round-trip through a strict reference chunk decoder; thorough: coverage-guided (libFuzzer) search over the same choice tapes, same decoder and oracle",
-            "every output length 0..=30808 (chunked, length-delimited, HTTP/1.0, and eleven further request shapes / routes rotating with n) is enumerated completely, larger n sampled: the formula and the writer are tied together by performing the write and decoding it",
+            "every output length 0..=30808 (chunked, length-delimited, HTTP/1.0, and twelve further request shapes / routes rotating with n; after a refused direct-write report; pairs of questions up to 2^40) is enumerated completely, larger n sampled: the formula and the writer are tied together by performing the write and decoding it",
             "trusted: harness strict chunk decoder; public Flow API only"),
     "C19": ("enumerated (output, input-ladder) grid + proptest whole-body loops and write histories; metamorphic monotonicity + strict chunk round-trip; thorough: coverage-guided (libFuzzer) search over the same choice tapes, same decoder and oracle",
-            "all outputs 6..=11000 x an input ladder around every boundary, on both APIs; monotonicity in the input length and progress >= advertised maximum are checked pairwise",
+            "all outputs 6..=11000, and outputs around k full chunks (k up to 100/200) and around 2^15..2^21, x an input ladder around every boundary, on both APIs; monotonicity in the input length and progress >= advertised maximum are checked pairwise",
             "trusted: harness strict chunk decoder; fresh sender per pair"),
 }
 
